@@ -170,9 +170,9 @@ Section FINAL.
                   (wl2 = [] \/ (exists x, wl2 = [x] /\ p_wset p2 = false)) /\
                   (match wl2 with [x] => Some x | _ => p_width p2 end) = wopt g dflt nom).
     { unfold p2, wl2. destruct (g_hstem g) eqn:Eg.
-      - repeat split; auto. destruct Hwl as [->|(x & ->)]; exact Hwo.
-      - cbn [p_stem p_hs p_vs p_cmds p_px p_py p_moved p_hopen p_init app p_width]. repeat split; auto.
-        destruct Hwl as [->|(x & ->)]; exact Hwo. }
+      - repeat split; auto; try (destruct Hwl as [->|(x & ->)]; exact Hwo).
+      - cbn [p_stem p_hs p_vs p_cmds p_px p_py p_moved p_hopen p_init app p_width].
+        repeat split; auto; try (destruct Hwl as [->|(x & ->)]; exact Hwo). }
     destruct Hp2 as (P1 & P2 & P3 & P4 & P5 & P6 & P7 & P8 & P9).
     assert (Hex2 : match g_hstem g with [] => match w with [] => 0%nat | _ => 1%nat end | _ => 0%nat end = length wl2).
     { unfold wl2. destruct (g_hstem g); [exact Hex|reflexivity]. }
@@ -181,14 +181,13 @@ Section FINAL.
     destruct (g_vstem g) as [|v0 vst] eqn:Evs.
     { (* none *)
       rewrite stem_chunks_nil in Hv. inversion Hv; subst vb.
-      exists st2, p2, wl2, []. rewrite app_nil_r. cbn [app] in *.
-      assert (Hrev : rev wl2 = wl2) by (destruct P8 as [->|(x & -> & _)]; reflexivity).
-      rewrite Hrev. repeat split; auto.
-      - rewrite <- app_assoc. rewrite Hg1, Hg2. reflexivity.
-      - destruct P8 as [->|(x & -> & _)]; cbn; unfold t2_max_stack; lia.
-      - congruence.
-      - congruence.
-      - rewrite P2. reflexivity. }
+      assert (Hrev : rev (wl2 ++ []) = wl2) by (destruct P8 as [->|(x & -> & _)]; reflexivity).
+      exists st2, p2, wl2, []. rewrite Hrev. cbn [app] in *.
+      split. { rewrite <- !app_assoc. cbn [app]. rewrite Hg1, Hg2. reflexivity. }
+      split; [exact Hat2'|]. split; [exact P8|]. split; [reflexivity|].
+      split. { destruct P8 as [->|(x & -> & _)]; cbn; unfold t2_max_stack; lia. }
+      split; [exact P6|]. split; [exact P3|]. split; [exact P4|]. split; [exact P5|].
+      split; [congruence|]. split; [exact P1|]. split; [rewrite P2; reflexivity|exact P9]. }
     rewrite <- Evs in *.
     assert (Hvne : g_vstem g <> []) by (rewrite Evs; discriminate).
     destruct (match g_cmds g with c :: _ => is_mask c | [] => false end) eqn:Eom.
@@ -198,12 +197,15 @@ Section FINAL.
       destruct (chunks_omit_exec subrs gsubrs call hm (S (length (g_vstem g))) (g_vstem g) (length wl2) vb st2 p2 wl2 rest
                   Hv' Hvne Ev eq_refl Hat2' P8 P7)
         as (st3 & pf & dv & wl3 & Hg3 & Hat3 & R1 & R2 & R3 & R4 & R5 & R6 & R7 & R8 & R9 & R10 & R11).
-      exists st3, pf, wl3, dv. repeat split; try assumption; try congruence.
-      + rewrite <- !app_assoc. rewrite Hg1, Hg2. exact Hg3.
-      + destruct R11 as [[-> ->]|(-> & _)]; [exact P8|left; reflexivity].
-      + intros _. destruct (g_cmds g) as [|c t]; [discriminate|]. eauto.
-      + rewrite R2, P2. reflexivity.
-      + destruct R11 as [[-> ->]|(-> & _ & ->)]; exact P9.
+      exists st3, pf, wl3, dv.
+      split. { rewrite <- !app_assoc. rewrite Hg1, Hg2. exact Hg3. }
+      split; [exact Hat3|].
+      split. { destruct R11 as [[-> ->]|(-> & _)]; [exact P8|left; reflexivity]. }
+      split; [exact R8|]. split; [exact R10|].
+      split; [congruence|]. split; [congruence|]. split; [congruence|]. split; [congruence|].
+      split. { intros _. split; [exact R7|]. destruct (g_cmds g) as [|c t]; [discriminate|]. eauto. }
+      split; [congruence|]. split; [rewrite R2, P2; reflexivity|].
+      destruct R11 as [[-> ->]|(-> & _ & ->)]; exact P9.
     - (* every vstem chunk has its operator *)
       assert (Hv' : stem_chunks (S (length (g_vstem g))) (length wl2) (g_vstem g) (stem_op true hm) false = Some vb)
         by (destruct hm; exact Hv).
@@ -213,9 +215,41 @@ Section FINAL.
       rewrite Evs in Hat3. rewrite <- Evs in Hat3.
       exists st3, (p_stem true p2 (match wl2 with [x] => Some x | _ => p_width p2 end) (g_vstem g)), [], [].
       cbn [app rev p_stem p_hs p_vs p_cmds p_px p_py p_moved p_width length stem_edges]. rewrite app_nil_r.
-      repeat split; try assumption; try congruence; auto.
-      + rewrite <- !app_assoc. rewrite Hg1, Hg2. exact Hg3.
-      + unfold t2_max_stack. lia.
-      + rewrite P2. reflexivity.
+      split. { rewrite <- !app_assoc. rewrite Hg1, Hg2. exact Hg3. }
+      split; [exact Hat3|]. split; [left; reflexivity|]. split; [reflexivity|].
+      split; [unfold t2_max_stack; lia|].
+      split; [exact P6|]. split; [exact P3|]. split; [exact P4|]. split; [exact P5|].
+      split; [congruence|]. split; [exact P1|]. split; [rewrite P2; reflexivity|].
+      destruct wl2 as [|x [|y r]]; exact P9.
   Qed.
 End FINAL.
+
+(* glyph descriptions the theorem speaks about: drawing only after a moveto,
+   masks only when stems exist and with ceil(n/8) bytes *)
+Definition glyph_wf (g : glyph) : bool :=
+  cmds_wf ((length (g_hstem g) + length (g_vstem g)) / 2) false (g_cmds g).
+
+Lemma any_path_correct_lemma g dflt nom code subrs gsubrs :
+  emits g dflt nom code -> glyph_wf g = true ->
+  S_t2 dflt nom subrs gsubrs code = T2Ok g.
+Proof.
+  intros (hdr & ecs & body & Hh & Ha & Hp & ->) Hwf.
+  unfold S_t2, t2_fuel, t2_max_depth.
+  change (exec subrs gsubrs 11 init_state (hdr ++ body))
+    with (go subrs gsubrs (exec subrs gsubrs 10) init_state (hdr ++ body)).
+  set (call := exec subrs gsubrs 10).
+  assert (Hat0 : at_stk init_state p_init []) by (repeat split).
+  destruct (header_exec subrs gsubrs call g dflt nom hdr body init_state Hh Hat0)
+    as (st & pf & wl & dv & Hg1 & Hat & Hw & Hev & Hfit & Hmv & Hc & Hx & Hy & Hdv & Hhs & Hvs & Hwd).
+  destruct (enc_args_sound _ _ _ _ Ha) as (Hrw & Hb & Hs).
+  destruct (first_exec subrs gsubrs call ecs body st pf wl dv Hp Hrw Hat Hw Hev Hfit Hmv)
+    as (st' & Hg2 & H1 & H2 & H3 & H4).
+  - intros Hne. destruct (Hdv Hne) as (Hho & c & t & Ec & Hm). split; [exact Hho|].
+    rewrite Ec in Ha. destruct c; try discriminate; cbn [enc_args] in Ha;
+      apply obind_some in Ha; destruct Ha as (r & _ & Ha); inversion Ha; eauto.
+  - rewrite Hhs, Hvs, Hb. exact Hwf.
+  - rewrite Hg1, Hg2. cbn [outcome_of]. f_equal. unfold glyph_of.
+    rewrite H1, H2, H3, H4, Hhs, Hvs, Hwd, (Hs pf Hx Hy), Hc. cbn [app].
+    destruct g as [gc gh gv gw]. cbn [g_cmds g_hstem g_vstem g_width wopt] in *. unfold wopt. cbn [g_width].
+    f_equal. destruct (gw =? dflt) eqn:E; [apply Z.eqb_eq in E; congruence|lia].
+Qed.
